@@ -447,7 +447,10 @@ Inductive op :=
 | OSetPtr (ci ch : N)        (* PathMeta.CurrINF / CurrHF assigned directly *)
 | OConv                      (* Raw.ToDecoded resp. Decoded.ToRaw; the object itself is kept *)
 | OSetInfo (i : N) (x : info)   (* Raw.SetInfoField resp. InfoFields[i] = x *)
-| OSetHop (i : N) (x : hop).    (* Raw.SetHopField resp. HopFields[i] = x *)
+| OSetHop (i : N) (x : hop)     (* Raw.SetHopField resp. HopFields[i] = x *)
+| OSer                       (* SerializeTo into a fresh buffer, which is then decoded by a fresh Decoded *)
+| ODecode (w datalen : N) (is : list info) (hs : list hop).
+                             (* DecodeFromBytes of another path into the same object *)
 
 Definition set_nth {A} (l : list A) (i : nat) (x : A) : list A :=
   firstn i l ++ match skipn i l with [] => [] | _ :: t => x :: t end.
@@ -470,7 +473,12 @@ Definition step (raw : bool) (p : path) (o : op) : sobs :=
     | Panic => mk_sobs 3 p None
     end
   | OSetPtr ci ch => mk_sobs 0 (with_base p (base_with_ptrs (pbase p) ci ch)) None
-  | OConv => mk_sobs (match to_raw p with Some _ => 0 | None => 1 end) p (to_raw p)
+  | OConv | OSer => mk_sobs (match to_raw p with Some _ => 0 | None => 1 end) p (to_raw p)
+  | ODecode w datalen is hs =>
+    match path_decode w datalen is hs with
+    | Some q => mk_sobs 0 q None
+    | None => mk_sobs 1 p None
+    end
   | OSetInfo i x =>
     if i <? num_inf (pbase p)
     then mk_sobs 0 {| pbase := pbase p; infos := set_nth (infos p) (N.to_nat i) x; hops := hops p |} None
@@ -501,7 +509,8 @@ Fixpoint seq_agree (r d : path) (ops : list op) (obs : list (sobs * sobs)) : boo
       (so reversing twice restores it, and raw and decoded agree wherever they agreed before);
     - IncPath inside the path: fails at the last hop and leaves the object alone, else moves to the
       next hop and to the segment that contains it, nothing else changes;
-    - converting Raw <-> Decoded with pointers in range gives the same path. *)
+    - converting Raw <-> Decoded, or serializing and decoding again, with pointers in range gives
+      the same path. *)
 Definition inc_oracle (pre : path) (ob : sobs) : bool :=
   let b := pbase pre in let m := pm b in
   if num_hops b <=? curr_hf m then true
@@ -518,9 +527,20 @@ Definition step_oracle (pre : path) (o : op) (ob : sobs) : bool :=
     if num_inf (pbase pre) =? 0 then negb (so_code ob =? 0)
     else negb (ptrs_in_range pre) || ((so_code ob =? 0) && path_eqb (so_path ob) (spec_reverse pre))
   | OInc _ => inc_oracle pre ob
-  | OConv =>
+  | OConv | OSer =>
     negb (ptrs_in_range pre) ||
     ((so_code ob =? 0) && path_eqb (so_path ob) pre && opath_eqb (so_conv ob) (Some pre))
+  | _ => true
+  end.
+
+(** decoding the same bytes into a (recycled) Raw and a (recycled) Decoded object gives the same path,
+    with exactly NumINF info fields and NumHops hop fields *)
+Definition pair_oracle (o : op) (obr obd : sobs) : bool :=
+  match o with
+  | ODecode _ _ _ _ =>
+    (so_code obr =? 0) && (so_code obd =? 0) && path_eqb (so_path obr) (so_path obd) &&
+    (N.of_nat (length (infos (so_path obd))) =? num_inf (pbase (so_path obd))) &&
+    (N.of_nat (length (hops (so_path obd))) =? num_hops (pbase (so_path obd)))
   | _ => true
   end.
 
@@ -528,7 +548,8 @@ Fixpoint seq_oracle (r d : path) (ops : list op) (obs : list (sobs * sobs)) : bo
   match ops, obs with
   | [], [] => true
   | o :: ops', (obr, obd) :: obs' =>
-    step_oracle r o obr && step_oracle d o obd && seq_oracle (so_path obr) (so_path obd) ops' obs'
+    step_oracle r o obr && step_oracle d o obd && pair_oracle o obr obd &&
+    seq_oracle (so_path obr) (so_path obd) ops' obs'
   | _, _ => false
   end.
 
